@@ -22,60 +22,126 @@ ACTIONS = ['FieldFound', 'SkippedFound', 'IgnoredNonCritical', 'IgnoredCriticalB
            'BadUintWidth', 'BadName', 'BadNested', 'Done']
 SUBST = 'CONSTANTS SchemaOfCase <- C07Schema IcOfCase <- C07Ic InputOfCase <- C07Input'
 FN = {'interest': 'parse_interest', 'data': 'parse_data', 'cert': 'parse_certificate', 'lp': 'parse_lp_packet_v2',
-      'name': 'Name.from_bytes'}
+      'name': 'Name.from_bytes', 'lp.legacy': 'parse_lp_packet', 'lp.nack': 'parse_network_nack',
+      'interest2017': '2017.parse_interest', 'data2017': '2017.parse_data'}
 
 
 # ------------------------------------------------------------------ running the real decoders
 
-def decode(pk, wire, schema):
-    """-> (got, out): got = accept | reject (documented decoding error) | error:<class>; out = projection of
-    the returned fields, aligned with the packet schema of the spec (components for a name)."""
+def decoder_of(pk):
     from ndn import encoding as enc
     from ndn.app_support.security_v2 import parse_certificate
+    from ndn.encoding import ndn_format_0_3_2017 as f17
+    return {'interest': enc.parse_interest, 'data': enc.parse_data, 'cert': parse_certificate, 'lp': enc.parse_lp_packet_v2,
+            'name': enc.Name.from_bytes, 'lp.legacy': enc.parse_lp_packet, 'lp.nack': enc.parse_network_nack,
+            'interest2017': f17.parse_interest, 'data2017': f17.parse_data}[pk]
+
+
+HAS_WITH_TL = ('interest', 'data', 'lp', 'lp.legacy', 'lp.nack', 'interest2017', 'data2017')
+
+
+def decode(pk, wire, schema, container='bytearray', with_tl=True):
+    """-> (got, out, ptr): got = accept | reject (documented decoding error) | error:<class>; out = projection of
+    the returned fields, aligned with the packet schema of the spec (components for a name; (NackReason, Fragment)
+    for lp.legacy / lp.nack); ptr = the SignaturePtrs (TlvModelPackets.Ptrs; only read back for a bytearray input).
+    container: how the input is handed over - bytearray (writable, lets the offsets of returned views be read
+    back), bytes (what a face delivers), memoryview (a read-only view at a non-zero offset of a larger buffer)."""
     f2a = kit.field_to_abstract
     ptr = {'dvb': kit.NONE, 'scn': {'k': 'list', 'items': []}, 'scr': [], 'dcr': []}
-    wire = bytearray(wire)          # writable, so that the offsets of the returned memoryviews can be read back
+    if container == 'bytearray':
+        wire = bytearray(wire)
+    elif container == 'bytes':
+        wire = bytes(wire)
+    else:
+        wire = memoryview(b'\x05\xfd' + bytes(wire) + b'\x07')[2:-1]
+    fn = decoder_of(pk)
     try:
-        if pk == 'interest':
-            res = enc.parse_interest(wire)
-        elif pk == 'data':
-            res = enc.parse_data(wire)
-        elif pk == 'cert':
-            res = parse_certificate(wire)
-        elif pk == 'lp':
-            res = enc.parse_lp_packet_v2(wire)
-        else:
-            res = enc.Name.from_bytes(wire)
+        res = fn(wire) if with_tl else fn(wire, with_tl=False)
     except Exception as ex:  # noqa
         return ('reject' if kit.exc_class(ex) == 'documented' else 'error:' + type(ex).__name__), [], ptr
+    want_ptr = container == 'bytearray' and with_tl
     # projection of what was returned; a result of an unexpected shape is reported as such, not as a driver error
     try:
-        if pk == 'interest':
+        if pk in ('interest', 'interest2017'):
             name, par, app, sig = res
             fh = par.forwarding_hint
-            out = [f2a(schema[0], name, None), f2a(schema[1], par.can_be_prefix, None), f2a(schema[2], par.must_be_fresh, None),
-                   ({'k': 'model', 'v': [{'k': 'list', 'items': [f2a(schema[0], n, None) for n in fh]}]} if fh else kit.NONE),
+            if not fh:
+                fhv = kit.NONE
+            elif pk == 'interest':
+                fhv = {'k': 'model', 'v': [{'k': 'list', 'items': [f2a(schema[0], n, None) for n in fh]}]}
+            else:
+                dd = schema[3]['sub'][0]['elem'][0]['sub']
+                fhv = {'k': 'model', 'v': [{'k': 'list', 'items': [{'k': 'model', 'v': [f2a(dd[0], pr, None), f2a(dd[1], n, None)]}
+                                                                    for pr, n in fh]}]}
+            out = [f2a(schema[0], name, None), f2a(schema[1], par.can_be_prefix, None), f2a(schema[2], par.must_be_fresh, None), fhv,
                    f2a(schema[4], par.nonce, None), f2a(schema[5], par.lifetime, None), f2a(schema[6], par.hop_limit, None),
                    f2a(schema[7], app, None), f2a(schema[8], sig.signature_info, None), f2a(schema[9], sig.signature_value_buf, None)]
-            cov = list(sig.signature_covered_part or [])
-            has_range = sig.signature_value_buf is not None and len(cov) > 0
-            ptr = {'dvb': f2a(schema[7], sig.digest_value_buf, None),
-                   'scn': {'k': 'list', 'items': [kit.comp_abstract(c) for c in (cov[:-1] if has_range else cov)]},
-                   'scr': elem_range(wire, cov[-1]) if has_range else [],
-                   'dcr': elem_range(wire, sig.digest_covered_part[0]) if sig.digest_covered_part else []}
-        elif pk == 'data':
+            if want_ptr:
+                cov = list(sig.signature_covered_part or [])
+                has_range = sig.signature_value_buf is not None and len(cov) > 0
+                ptr = {'dvb': f2a(schema[7], sig.digest_value_buf, None),
+                       'scn': {'k': 'list', 'items': [kit.comp_abstract(c) for c in (cov[:-1] if has_range else cov)]},
+                       'scr': elem_range(wire, cov[-1]) if has_range else [],
+                       'dcr': elem_range(wire, sig.digest_covered_part[0]) if sig.digest_covered_part else []}
+        elif pk in ('data', 'data2017'):
             name, meta, content, sig = res
             out = [f2a(schema[0], name, None), f2a(schema[1], meta, None), f2a(schema[2], content, None),
                    f2a(schema[3], sig.signature_info, None), f2a(schema[4], sig.signature_value_buf, None)]
-            cov = list(sig.signature_covered_part or [])
-            ptr['scr'] = elem_range(wire, cov[-1]) if sig.signature_value_buf is not None and cov else []
+            if want_ptr:
+                cov = list(sig.signature_covered_part or [])
+                ptr['scr'] = elem_range(wire, cov[-1]) if sig.signature_value_buf is not None and cov else []
         elif pk in ('cert', 'lp'):
             out = kit.to_abstract(schema, res)
+        elif pk in ('lp.legacy', 'lp.nack'):
+            reason, frag = res
+            out = [f2a(schema[3]['sub'][0], reason, None), f2a(schema[12], frag, None)]
         else:
             out = [kit.comp_abstract(c) for c in res]
     except Exception as ex:  # noqa
         out = [{'k': 'unprojectable-result', 'exc': type(ex).__name__}]
     return 'accept', out, ptr
+
+
+def lp_side_expect(pk, verdict, why, exp):
+    """(NackReason, Fragment) decoders, from the reference result of the LP machine (same as LpLegacyOut / NetNackOut)"""
+    if verdict != 'accept' and not (pk == 'lp.nack' and why == 'lp-fragmentation-unsupported'):
+        return 'reject', []
+    nack = exp[3]
+    if nack['k'] == 'none':
+        reason = kit.NONE
+    else:
+        reason = nack['v'][0] if nack['v'][0]['k'] != 'none' else {'k': 'uint', 'n': []}
+    if pk == 'lp.nack' and nack['k'] == 'none':
+        return 'accept', [kit.NONE, kit.NONE]
+    return 'accept', [reason, exp[12]]
+
+
+OUTER_T = {'interest': 5, 'data': 6, 'lp': 100, 'lp.legacy': 100, 'lp.nack': 100, 'interest2017': 5, 'data2017': 6}
+VARIANTS = ('bytes', 'memoryview', 'with_tl=False')
+
+
+def check_variant(ctx, k, pk, wire, schema, got, out, rep):
+    """The same input handed over in another way must give the same verdict and fields as the judged call:
+    bytes, a read-only memoryview at an offset, and (decoders that have it) the value alone with with_tl=False."""
+    var = VARIANTS[k % 3]
+    if var == 'with_tl=False':
+        if pk not in HAS_WITH_TL:
+            var = 'bytes'
+        else:
+            try:
+                t, s1 = stl.parse_var(wire, 0, None, shortest=False)
+                ln, s2 = stl.parse_var(wire, s1, None, shortest=False)
+            except stl.TlvError:
+                return
+            if s1 + s2 + ln != len(wire) or t != OUTER_T[pk]:
+                return                      # the outer Type / Length is wrong: only the with_tl=True path sees that
+            g, o, _ = decode(pk, wire[s1 + s2:], schema, 'bytes', with_tl=False)
+    if var != 'with_tl=False':
+        g, o, _ = decode(pk, wire, schema, var)
+    if (g, o) != (got, out):
+        ctx.violation('C07/%s/variant:%s/%s-vs-%s' % (FN[pk], var, got, g if g != got else 'fields-differ'),
+                      '%s(%s) handed over as %s: %s, but %s for the bytearray call' % (FN[pk], wire.hex()[:200], var, g, got),
+                      dict(rep, variant=var))
 
 
 def elem_range(wire, buf):
@@ -119,9 +185,9 @@ def ptrs_ok(e, g):
 
 def norm_expected(pk, out):
     """decoder-level normalisation of the generic machine output (same as Norm in TlvModelC07Judge)"""
-    if pk == 'interest' and out[3]['k'] == 'model' and not out[3]['v'][0]['items']:
+    if pk in ('interest', 'interest2017') and out[3]['k'] == 'model' and not out[3]['v'][0]['items']:
         out[3] = kit.NONE
-    if pk == 'data' and out[1]['k'] == 'none':
+    if pk == 'data' and out[1]['k'] == 'none':        # (the 2017 parse_data returns None for an absent MetaInfo)
         out[1] = {'k': 'model', 'v': [{'k': 'uint', 'n': []}, kit.NONE, kit.NONE]}
     return out
 
@@ -206,7 +272,8 @@ def replay_sequences(ctx, table, seqs, seen):
             raise tlc.MachineryError('strict reader/writer disagree on %s %s: %s' % (seq_pk, w, oc))
         got, out, ptr = decode(pk, wire, dschema)
         n += 1
-        if verdict == 'accept':
+        exp = None
+        if verdict == 'accept' or why == 'lp-fragmentation-unsupported':
             if pk == 'name':
                 exp = [T['values'][i - 1]['fv'] for i in w]
                 exp = [{'t': c['t'], 'runs': c['runs']} for c in exp]
@@ -232,6 +299,19 @@ def replay_sequences(ctx, table, seqs, seen):
         elif verdict == 'accept' and not fr['parent'] and not ptrs_ok(eptr, ptr):
             ctx.violation('C07/%s/accept/pointers-differ' % FN[pk],
                           '%s(%s): SignaturePtrs %s differ from the strict reading %s' % (FN[pk], wire.hex(), json.dumps(ptr), json.dumps(eptr)), rep)
+        else:
+            check_variant(ctx, n, pk, wire, dschema, got, out, rep)
+        if seq_pk == 'lp':
+            for side in ('lp.legacy', 'lp.nack'):
+                ev, eo = lp_side_expect(side, verdict, why, exp)
+                g, o, _ = decode(side, wire, schema)
+                n += 1
+                if g != ev:
+                    ctx.violation('C07/%s/%s%s/%s' % (FN[side], ev, ':' + why if why and ev == 'reject' else '', g),
+                                  '%s(%s): reference %s, implementation %s' % (FN[side], wire.hex(), ev, g), dict(rep, pk=side))
+                elif ev == 'accept' and o != eo:
+                    ctx.violation('C07/%s/accept/fields-differ' % FN[side],
+                                  '%s(%s): (NackReason, Fragment) differ from the strict reading' % (FN[side], wire.hex()), dict(rep, pk=side))
         if len(w) >= 3 or why:
             ctx.nt(['B', seq_pk, w])
     return n
@@ -239,13 +319,24 @@ def replay_sequences(ctx, table, seqs, seen):
 
 # ------------------------------------------------------------------ stage C corpus
 
+SCHEMA2017 = None     # Interest2017S, derived in _run from the TLC-emitted Interest schema (only ForwardingHint differs)
+
+
+def schema2017(interest_schema):
+    s = json.loads(json.dumps(interest_schema))
+    name_d = s[0]
+    deleg = [kit.descr('preference', 30, 'uint'), dict(name_d, name='delegation')]
+    s[3]['sub'] = [kit.descr('delegations', 31, 'repeated', elem=[kit.descr('delegations', 31, 'model', sub=deleg)])]
+    return s
+
+
 def hand_corpus():
     """well-formed packets written with the strict writer only (independent of the library's encoders), among them
     certificates whose SignatureInfo carries every optional field: KeyLocator, ValidityPeriod, AdditionalDescription"""
     name = (7, [(8, b'id'), (8, b'KEY'), (8, b'\x01'), (8, b'self'), (54, b'\x01\x02')])
     validity = (253, [(254, b'20200102T030405'), (255, b'20300102T030405')])
     desc = (258, [(512, [(513, b'k1'), (514, b'v1')]), (512, [(513, b'k2'), (514, b'')])])
-    meta = (20, [(24, b'\x02'), (25, b'\x36\xee\x80')])
+    meta = (20, [(24, b'\x02'), (25, b'\x00\x36\xee\x80')])
     kl = (28, [(7, [(8, b'K')])])
     out = []
     for si in ([(27, b'\x03'), kl, validity, desc], [(27, b'\x03'), validity, desc], [(27, b'\x03'), kl, desc],
@@ -259,7 +350,7 @@ def hand_corpus():
                                                (46, b'\x07' * 8)])])))
     out.append(('interest', stl.write_tlv([(5, [(7, [(8, b'test'), (2, b'\xee' * 32), (8, b'ndn')]), (10, b'\x00\x00\x00\x02'), (36, b'\x01\x02'),
                                                (44, [(27, b'\x00')]), (46, b'\x09' * 32)])])))
-    out.append(('lp', stl.write_tlv([(100, [(98, b'\x01\x02'), (800, [(801, b'\x96')]), (812, b'\x01\x00'), (832, b'\x01'),
+    out.append(('lp', stl.write_tlv([(100, [(98, b'\x01\x02'), (800, [(801, b'\x96')]), (812, b'\x01\x00'), (820, [(821, b'\x01')]), (832, b'\x01'),
                                             (80, b'\x05\x03\x07\x01\x00')])])))
     return out
 
@@ -297,10 +388,16 @@ def corpus(ctx):
         ('name', 'uri', lambda: enc.Name.to_bytes('/a/b/32=kw/seg=5')),
         ('name', 'root', lambda: enc.Name.to_bytes('/')),
     ]
-    out = hand_corpus()
+    out = [(pk, w, 'hand') for pk, w in hand_corpus()]
+    # the other public decoders of the same formats see the same packets
+    out += [('lp.legacy', w, o) for pk, w, o in out if pk == 'lp'] + [('lp.nack', w, o) for pk, w, o in out if pk == 'lp']
+    out += [('data2017', w, o) for pk, w, o in out if pk == 'data']
+    out += [('interest2017', w, o) for pk, w, o in out if pk == 'interest' and b'\x1e\x05\x07\x03\x08\x01h' not in w]
+    out.append(('interest2017', stl.write_tlv([(5, [(7, [(8, b'a')]), (30, [(31, [(30, b'\x01'), (7, [(8, b'h')])]), (31, [(30, b'\x02'), (7, [])])]),
+                                                    (10, b'\x00\x00\x00\x09'), (12, b'\x0f\xa0')])]), 'hand'))
     for pk, what, fn in builders:
         try:
-            out.append((pk, bytes(fn())))
+            out.append((pk, bytes(fn()), what))
         except Exception as ex:  # noqa
             ctx.violation('C07/corpus/%s-%s/encoder-raises:%s' % (pk, what, type(ex).__name__),
                           'building the valid %s packet "%s" with the library raised %r' % (pk, what, ex), {'kind': 'corpus', 'pk': pk, 'what': what})
@@ -491,6 +588,81 @@ def linear_time(ctx):
         len(base), max(s / l for f, k, l, s in rows if k == 8)))
 
 
+def scaling_cpu(ctx):
+    """Second measure for "time proportional to the input": line events do not see super-linear work done inside C
+    (`lst = lst + [x]`, repeated slicing / copying). Inputs with N and 16 N cheap elements are decoded; the CPU time
+    of this process (time.process_time: not disturbed by other processes the way wall time is) may grow by at most
+    16 x SLACK, and the traced memory peak (tracemalloc) likewise. The RESULTS of the big parses are compared with
+    the strict reading (component / name counts and bytes)."""
+    import time, tracemalloc
+    from ndn import encoding as enc
+    SLACK = 2.5
+    N = 4000
+
+    def name_wire(n):
+        return stl.write_var(7) + stl.write_var(3 * n) + b'\x08\x01a' * n
+
+    def fh_wire(n):
+        body = stl.write_tlv([(7, [(8, b'a')])]) + stl.write_var(30) + stl.write_var(2 * n) + b'\x07\x00' * n + stl.write_tlv([(10, b'\x00\x00\x00\x01')])
+        return stl.write_var(5) + stl.write_var(len(body)) + body
+
+    def unk_wire(n):
+        body = stl.write_tlv([(7, [(8, b'a')])]) + b'\xfa\x00' * n + stl.write_tlv([(21, b'c')])
+        return stl.write_var(6) + stl.write_var(len(body)) + body
+
+    def check_name(res, n, w):
+        return len(res) == n and b''.join(bytes(c) for c in res[:3] + res[-3:]) == b'\x08\x01a' * 6
+
+    def check_fh(res, n, w):
+        name, par, app, sig = res
+        return len(par.forwarding_hint) == n and all(len(x) == 0 for x in par.forwarding_hint[:3] + par.forwarding_hint[-3:]) \
+            and par.nonce == 1 and [bytes(c) for c in name] == [b'\x08\x01a']
+
+    def check_unk(res, n, w):
+        name, meta, content, sig = res
+        return bytes(content) == b'c' and [bytes(c) for c in name] == [b'\x08\x01a']
+    fams = [('many-name-components', 'name', enc.Name.from_bytes, name_wire, check_name),
+            ('many-forwarding-hint-names', 'interest', enc.parse_interest, fh_wire, check_fh),
+            ('many-unknown-elements', 'data', enc.parse_data, unk_wire, check_unk)]
+    rows = []
+    for fam, pk, fn, mk, chk in fams:
+        small, big = mk(N), mk(16 * N)
+
+        def cpu(w, reps):
+            best = None
+            for _ in range(reps):
+                t0 = time.process_time()
+                r = fn(w)
+                dt = time.process_time() - t0
+                best = dt if best is None or dt < best else best
+            return best, r
+        fn(small)                                             # warm up
+        t1, r1 = cpu(small, 7)
+        t2, r2 = cpu(big, 3)
+        ctx.evaluations += 2
+        ok_res = chk(r1, N, small) and chk(r2, 16 * N, big)
+        tracemalloc.start()
+        fn(mk(N // 4))
+        p1 = tracemalloc.get_traced_memory()[1]
+        tracemalloc.reset_peak()
+        fn(mk(N))
+        p2 = tracemalloc.get_traced_memory()[1]
+        tracemalloc.stop()
+        rows.append('%s: cpu %.1f ms -> %.1f ms (x%.1f for 16x input), peak %d -> %d B (x%.1f for 4x)' % (
+            fam, 1000 * t1, 1000 * t2, t2 / max(t1, 1e-6), p1, p2, p2 / max(p1, 1)))
+        rep = {'kind': 'steps', 'family': fam}
+        if not ok_res:
+            ctx.violation('C07/%s/scaled-input/fields-differ' % FN[pk], '%s: the decoded result of the scaled input differs from the strict reading' % fam, rep)
+        if t2 > 16 * SLACK * max(t1, 0.0005):
+            ctx.violation('C07/%s/linear-time/cpu:%s' % (FN[pk], fam),
+                          '%s: CPU time %.1f ms for N=%d but %.1f ms for 16 N (x%.0f, bound x%.0f)' % (fam, 1000 * t1, N, 1000 * t2, t2 / t1, 16 * SLACK), rep)
+        if p2 > 4 * SLACK * max(p1, 4096):
+            ctx.violation('C07/%s/linear-time/memory:%s' % (FN[pk], fam),
+                          '%s: traced memory peak %d B for N/4 but %d B for N (bound x%.0f)' % (fam, p1, p2, 4 * SLACK), rep)
+    ctx.extra['scaling_cpu'] = rows
+    ctx.note('scaling (CPU time / memory peak): ' + '; '.join(rows))
+
+
 # ------------------------------------------------------------------ run
 
 def judge(ctx, recs, name):
@@ -553,26 +725,43 @@ def _run(ctx):
     if 'C' in ctx.stages:
         if table is None:
             table, _ = run_machine(ctx, 'tab', 1, 0, allpk, 2)
+        global SCHEMA2017
+        SCHEMA2017 = schema2017(table['interest']['schema'])
         recs, seen = [], set()
         stats = {}
-        for pk, wire in corpus(ctx):
-            T = table[pk]
+        hand_n = hand_ok = 0
+        for pk, wire, origin in corpus(ctx):
+            T = table[{'lp.legacy': 'lp', 'lp.nack': 'lp', 'data2017': 'data', 'interest2017': 'interest'}.get(pk, pk)]
+            T = dict(T, schema=SCHEMA2017 if pk == 'interest2017' else T['schema'])
             outer_t = kit.unlimbs(T['outer'])
             # (an unmutated packet that the decoder does not accept, or reads differently, is judged by TLC like
             # any other input: it is the first element of mutations())
             inputs = mutations(ctx, pk, wire, T['schema'], outer_t) + random_strings(ctx, pk, outer_t)
+            if pk in ('lp.legacy', 'lp.nack', 'data2017', 'interest2017') and ctx.quick:
+                inputs = inputs[:1] + inputs[1::3]        # sibling decoders share the code: a third of the inputs
             for w in inputs:
                 if (pk, w) in seen:
                     continue
                 seen.add((pk, w))
                 oc, tree = classify(pk, w, T['schema'], outer_t)
                 got, out, ptr = decode(pk, w, T['schema'])
-                recs.append({'id': len(recs) + 1, 'pk': pk, 'outer': oc, 'input': tree, 'got': got, 'out': out, 'ptr': ptr, 'wire': w.hex()})
+                base = w is wire
+                if base and origin == 'hand':
+                    hand_n += 1
+                    hand_ok += got == 'accept'
+                recs.append({'id': len(recs) + 1, 'pk': pk, 'must': 'accept' if base and origin == 'hand' else '', 'outer': oc,
+                             'input': tree, 'got': got, 'out': out, 'ptr': ptr, 'wire': w.hex()})
+                check_variant(ctx, len(recs), pk, w, T['schema'], got, out, {'kind': 'wire', 'pk': pk, 'wire': w.hex()})
                 stats[(pk, oc)] = stats.get((pk, oc), 0) + 1
                 if oc == 'ok':
                     ctx.nt(['C', pk, w.hex()])
         ctx.note('C: %d inputs (%s)' % (len(recs), ', '.join('%s/%s=%d' % (a, b, n) for (a, b), n in sorted(stats.items()))))
-        verdicts = judge(ctx, [{k: r[k] for k in ('id', 'pk', 'outer', 'input', 'got', 'out', 'ptr')} for r in recs], 'c07-judge-%s' % ctx.tier)
+        verdicts = judge(ctx, [{k: r[k] for k in ('id', 'pk', 'must', 'outer', 'input', 'got', 'out', 'ptr')} for r in recs], 'c07-judge-%s' % ctx.tier)
+        dead = [recs[rid - 1] for rid, tags in verdicts.items() if tags[0].startswith('CORPUS-DEAD/')]
+        if dead:
+            # independent of the tree under test: the harness' own corpus and reference disagree
+            raise tlc.MachineryError('hand-written corpus packet %s %s is rejected by the reference' % (dead[0]['pk'], dead[0]['wire']))
+        ctx.note('corpus sanity: %d hand-written packets, all accepted by the reference, %d accepted by the decoders' % (hand_n, hand_ok))
         for rid, tags in verdicts.items():
             r = recs[rid - 1]
             want, rest = tags[0].split('/', 1)
@@ -585,6 +774,7 @@ def _run(ctx):
         ctx.evaluations += len(recs)
         ctx.sample({'kind': 'C-record', 'decoder': FN[recs[5]['pk']], 'wire': recs[5]['wire'][:120], 'outer': recs[5]['outer'], 'got': recs[5]['got']})
         linear_time(ctx)
+        scaling_cpu(ctx)
 
 
 def replay(ctx, path):
@@ -595,10 +785,12 @@ def replay(ctx, path):
         return 0
     table, _ = run_machine(ctx, 'tab', 1, 0, ['interest', 'data', 'cert', 'lp', 'name'], 2)
     pk, wire = obj['pk'], bytes.fromhex(obj['wire'])
-    T = table[pk]
+    T = table[{'lp.legacy': 'lp', 'lp.nack': 'lp', 'data2017': 'data', 'interest2017': 'interest'}.get(pk, pk)]
+    if pk == 'interest2017':
+        T = dict(T, schema=schema2017(T['schema']))
     oc, tree = classify(pk, wire, T['schema'], kit.unlimbs(T['outer']))
     got, out, ptr = decode(pk, wire, T['schema'])
     print('%s(%s) -> %s; strict reader: outer=%s' % (FN[pk], obj['wire'][:200], got, oc))
-    v = judge(ctx, [{'id': 1, 'pk': pk, 'outer': oc, 'input': tree, 'got': got, 'out': out, 'ptr': ptr}], 'c07-replay')
+    v = judge(ctx, [{'id': 1, 'pk': pk, 'must': '', 'outer': oc, 'input': tree, 'got': got, 'out': out, 'ptr': ptr}], 'c07-replay')
     print('judge:', v.get(1, 'conforms'))
     return 1 if v else 0
